@@ -327,7 +327,6 @@ Proof.
     + (* EvBodyConsumed *)
       destruct (r_body r); inversion H; subst; clear H; [|apply summary_quiet; [apply same3_refl | left; simpl; congruence]].
       constructor; simpl; intros; auto; try congruence; try (left; congruence).
-      * rewrite PH. auto.
     + (* EvFail *)
       inversion H; subst; clear H.
       match goal with |- summary _ _ _ _ (retry_or_bail c r ?x) _ =>
@@ -342,8 +341,7 @@ Proof.
     + (* EvHeaders *)
       inversion H; subst; clear H.
       constructor; simpl; intros; auto; try congruence; try (left; congruence).
-      * rewrite PH; reflexivity.
-      * destruct (s_hdr_wait s); [left; simpl; congruence|]. simpl in H. right. exists status. auto.
+      destruct (s_hdr_wait s); [left; reflexivity|]. simpl in H. right. exists status. auto.
     + inversion H; subst. apply summary_quiet; [repeat split | right; reflexivity].
     + inversion H; subst. apply summary_quiet; [repeat split | left; simpl; congruence].
     + inversion H; subst. apply summary_quiet; [repeat split | left; simpl; congruence].
@@ -361,7 +359,6 @@ Proof.
       * apply summary_quiet; [repeat split | left; simpl; congruence].
     + destruct (r_body r); inversion H; subst; clear H; [|apply summary_quiet; [apply same3_refl | left; simpl; congruence]].
       constructor; simpl; intros; auto; try congruence; try (left; congruence).
-      * rewrite PH. auto.
     + inversion H; subst; clear H.
       match goal with |- summary _ _ _ _ (retry_or_bail c r ?x) _ =>
         destruct (retry_or_bail_view c r x) as [A B]; assert (SX : same3 s x) end.
